@@ -16,13 +16,13 @@ func init() { fw.Register(c11{}) }
 func (c11) ID() string             { return "C11" }
 func (c11) Race() bool             { return true }
 func (c11) CrashIsViolation() bool { return true }
-func (c11) CaseTimeout(string) int { return 60 }
+func (c11) CaseTimeout(string) int { return 40 }
 func (c11) Rule() string {
 	return "hand-built plans (SingleFetch trees over gated fake datasources whose answer is a pure function of datasource id, rendered input and forwarded header) driven through Resolver.ArenaResolveGraphQLResponse. " +
-		"Scripted cases: the 14 scenarios of notes/scenarios.md (1-6 inbound layer, 7-12 the same at the subgraph layer between different client operations containing an identical fetch, 13 keys differing only in variables / headers / datasource id, 14 identical mutations), " +
+		"Scripted cases: the 14 scenarios of notes/scenarios.md (1-6 inbound layer, 7-12 the same at the subgraph layer between different client operations containing an identical fetch, 13 keys differing only in variables / headers / datasource id, 14 identical mutations, 15 a participant's own client writer failing - leader's or one follower's, first Write failing or short write, writers failing only on later Writes / Flush - with followers joined before or parked across the leader's finish), " +
 		"each in its variants (upstream ok / upstream failure rendered / failure as Go error through the rate limiter / leader cancelled) and both release orders, with 2-4 participants from the seed; a yield controller parks the first goroutine(s) reaching the named verif yield point, runs the competing action, releases. " +
-		"Stress cases: rounds of 8-64 goroutines on 1-3 hot keys mixing equal and different variables, headers, operations, mutations, upstream failures and cancellations (before start, at the participant's own upstream call, timed, at the n-th hit of a yield point) with seeded micro delays at all six C11 yield points and in the upstream. " +
-		"Oracle on every participant of every scenario: outcome is its solo bytes (reference run alone with both de-duplication layers off, cross-checked against the by-construction bytes), or the upstream failure every request with that key hits, or its own context error / the rendering of its own cancellation; upstream call accounting per participant (mutations: exactly one own call; a participant answered without an own call needs a call for exactly its key); follower buffers re-hashed after the resolver's arenas were reused; all participants return once gates are open. " +
+		"Stress cases: rounds of 8-64 goroutines on 1-3 hot keys mixing equal and different variables, headers, operations, mutations, upstream failures client writer failures (8% of the participants) and cancellations (before start, at the participant's own upstream call, timed, at the n-th hit of a yield point) with seeded micro delays at all six C11 yield points and in the upstream. " +
+		"Oracle on every participant of every scenario: outcome is its solo bytes (reference run alone with both de-duplication layers off, cross-checked against the by-construction bytes), or the upstream failure every request with that key hits, or its own context error / the rendering of its own cancellation, or the error of its OWN client writer (each participant's writer error is a distinct value; seeing another participant's is a violation); upstream call accounting per participant (mutations: exactly one own call; a participant answered without an own call needs a call for exactly its key); follower buffers re-hashed after the resolver's arenas were reused; all participants return once gates are open. " +
 		"Non-trivial: at least one flight actually shared or at least one goroutine parked at a yield point; distinct by scenario, variant, order, participant count and park/release signature."
 }
 func (c11) Assumptions() []string {
@@ -36,7 +36,8 @@ func (c11) Assumptions() []string {
 func (c11) RequiredCounters(string) []string {
 	req := []string{"scenarios", "participants", "parks", "flights_shared_inbound", "flights_shared_subgraph", "upstream_calls", "limiter_calls",
 		"follower_buffers_rehashed", "mutation_fetches_checked", "dedup_data_deliveries", "outcome.solo_bytes", "outcome.own_cancel_error", "outcome.own_cancel_rendered",
-		"outcome.shared_upstream_failure_rendered", "outcome.shared_upstream_failure_error", "stress_rounds"}
+		"outcome.shared_upstream_failure_rendered", "outcome.shared_upstream_failure_error", "stress_rounds",
+		"outcome.own_writer_error", "writer_faults_injected", "writer_writes", "participants_with_writer_fault.first-write", "participants_with_writer_fault.short-write", "participants_with_writer_fault.later-write-or-flush"}
 	for _, p := range c11Points {
 		req = append(req, "hook_hits."+p)
 	}
@@ -47,10 +48,10 @@ func (c11) RequiredCounters(string) []string {
 type scriptCase struct{ num, variant, order int }
 
 var scriptTable = func() []scriptCase {
-	variants := map[int]int{1: 2, 2: 2, 3: 2, 4: 1, 5: 3, 6: 1, 7: 2, 8: 1, 9: 1, 10: 1, 11: 1, 12: 1, 13: 4, 14: 2}
-	orders := map[int]int{1: 2, 2: 2, 3: 2, 4: 2, 5: 2, 6: 2, 7: 2, 8: 2, 9: 2, 10: 2, 11: 2, 12: 2, 13: 1, 14: 1}
+	variants := map[int]int{1: 2, 2: 2, 3: 2, 4: 1, 5: 3, 6: 1, 7: 2, 8: 1, 9: 1, 10: 1, 11: 1, 12: 1, 13: 4, 14: 2, 15: 6}
+	orders := map[int]int{1: 2, 2: 2, 3: 2, 4: 2, 5: 2, 6: 2, 7: 2, 8: 2, 9: 2, 10: 2, 11: 2, 12: 2, 13: 1, 14: 1, 15: 2}
 	var t []scriptCase
-	for n := 1; n <= 14; n++ {
+	for n := 1; n <= 15; n++ {
 		for v := 0; v < variants[n]; v++ {
 			for o := 0; o < orders[n]; o++ {
 				t = append(t, scriptCase{n, v, o})
@@ -135,7 +136,7 @@ func names(prefix string, n int) []string {
 func runScripted(res *fw.Result, rng *rand.Rand, c scriptCase, k int, label string) *scenario {
 	v, hdr := pickV(rng), pickHdr(rng)
 	limiter := false
-	sub := c.num >= 7 && c.num <= 12
+	sub := (c.num >= 7 && c.num <= 12) || (c.num == 15 && c.variant == 5)
 	switch {
 	case c.num == 2 && c.variant == 0, c.num == 8:
 		v = "boom" + v
@@ -352,6 +353,53 @@ func runScripted(res *fw.Result, rng *rand.Rand, c scriptCase, k int, label stri
 			sc.waitBlocked(g, len(distinct))
 			sc.settle()
 			sc.openGate(g)
+		})
+	case 15:
+		// A participant's own client connection fails when the response is written to it (the
+		// resolver writes once: first Write failing outright / short write; a writer that fails only
+		// on later Writes or on Flush is run too and must behave like a healthy one). Variants: the
+		// leader's writer (0 first-write, 1 short-write, 2 leader and one follower), one follower's
+		// writer (3 first-write, 4 short-write), 5 the leader's writer at the subgraph layer (other
+		// client operations waiting on its fetch). Order 0: followers joined before the leader finishes;
+		// order 1: followers parked before registering / waiting, one released before the leader
+		// finishes, the rest after it returned.
+		sc.run(func() {
+			nf := k
+			if nf < 2 {
+				nf = 2
+			}
+			L, F := mk(nf)
+			switch c.variant {
+			case 0, 5:
+				L.wfault = wfFirstWrite
+			case 1:
+				L.wfault = wfShortWrite
+			case 2:
+				L.wfault, F[0].wfault = wfFirstWrite, wfFirstWrite
+			case 3:
+				F[0].wfault = wfFirstWrite
+			case 4:
+				F[0].wfault = wfShortWrite
+			}
+			F[nf-1].wfault = []int{wfNone, wfLater}[rng.IntN(2)] // later-Write/Flush faults never trigger on this path
+			g.setOpen(false)
+			sc.start(L)
+			sc.waitBlocked(g, 1)
+			if c.order == 0 {
+				sc.start(F...)
+				sc.waitHits(ptFollower, fkey, int64(nf))
+				sc.settle()
+				sc.openGate(g)
+			} else {
+				ctl.arm(ptFollower, fkey, nf)
+				sc.start(F...)
+				sc.waitParked(ptFollower, nf)
+				sc.release(ptFollower, 1)
+				sc.settle()
+				sc.openGate(g)
+				sc.waitDone(L)
+				sc.release(ptFollower, nf)
+			}
 		})
 	case 14:
 		// identical mutations, concurrently: every one of them reaches the upstream
